@@ -30,6 +30,7 @@ type recogEnv struct {
 	G       *types.Named // a second named struct, playing an instantiated generic
 	C       *types.Named // struct{} with method M(): implements I
 	J, K    *types.Named // interfaces: J lacks M, K has M and more
+	E       *types.Named // interface{ I }: methods only through an embedded interface
 	S1      *types.Named // struct{ A int }
 	fset    *token.FileSet
 }
@@ -62,6 +63,10 @@ func newRecogEnv() *recogEnv {
 	kface := types.NewInterfaceType([]*types.Func{types.NewFunc(token.NoPos, e.pkg, "M", msig), types.NewFunc(token.NoPos, e.pkg, "Extra", msig)}, nil)
 	kface.Complete()
 	e.K = types.NewNamed(types.NewTypeName(token.NoPos, e.pkg, "K", nil), kface, nil)
+	// E consists of an embedded interface only: interface{ I }
+	eface := types.NewInterfaceType(nil, []types.Type{e.I})
+	eface.Complete()
+	e.E = types.NewNamed(types.NewTypeName(token.NoPos, e.pkg, "E", nil), eface, nil)
 	// C implements I with a value receiver
 	e.C = types.NewNamed(types.NewTypeName(token.NoPos, e.pkg, "C", nil), types.NewStruct(nil, nil), nil)
 	recv := types.NewVar(token.NoPos, e.pkg, "c", e.C)
@@ -117,6 +122,8 @@ func (e *recogEnv) ptrExpr(tag string, what int) (ast.Expr, types.Type) {
 		elem, tyExpr = e.S1, e.typeIdent(e.S1)
 	case 11:
 		elem, tyExpr = types.NewPointer(e.N), &ast.StarExpr{X: e.typeIdent(e.N)}
+	case 12:
+		elem, tyExpr = e.E, e.typeIdent(e.E)
 	case 8:
 		elem, tyExpr = e.J, e.typeIdent(e.J)
 	case 9:
@@ -135,7 +142,7 @@ func (e *recogEnv) ptrExpr(tag string, what int) (ast.Expr, types.Type) {
 	case 0: // new(T)
 		x = &ast.CallExpr{Fun: e.ident("new", types.Universe.Lookup("new")), Args: []ast.Expr{tyExpr}}
 	case 1: // new(pkg.T)
-		if what != 0 && what != 2 && what != 3 && what != 6 && what != 8 && what != 9 && what != 10 {
+		if what != 0 && what != 2 && what != 3 && what != 6 && what != 8 && what != 9 && what != 10 && what != 12 {
 			vPrune()
 		}
 		other := types.NewPkgName(token.NoPos, e.pkg, "user2", e.pkg)
@@ -215,7 +222,7 @@ func H_recog_bind() {
 	var args []ast.Expr
 	whats := make([]int, n)
 	for i := 0; i < n; i++ {
-		whats[i] = []int{0, 1, 2, 3, 6, 7, 8, 9}[vConc(vInt(fmt.Sprintf("what%d", i), 0, 7))]
+		whats[i] = []int{0, 1, 2, 3, 6, 7, 8, 9, 12}[vConc(vInt(fmt.Sprintf("what%d", i), 0, 8))]
 		var a ast.Expr
 		if i < 2 {
 			a, _ = e.ptrExpr(fmt.Sprintf("a%d", i), whats[i])
@@ -232,10 +239,11 @@ func H_recog_bind() {
 		return
 	}
 	vCover("bind-accepted")
-	vA("C11", n == 2 && (whats[0] == 2 || whats[0] == 8 || whats[0] == 9), "Bind takes exactly two arguments, the first a pointer to an interface")
+	vA("C11", n == 2 && (whats[0] == 2 || whats[0] == 8 || whats[0] == 9 || whats[0] == 12), "Bind takes exactly two arguments, the first a pointer to an interface")
 	// with bindToUsePointer the second argument new(C) / new(*C) denotes C / *C; both implement I (value receiver);
-	// interface K implements I; nothing in the pool implements J or K
-	vA("C11", whats[0] == 2 && (whats[1] == 6 || whats[1] == 7 || whats[1] == 9), "Bind requires the bound type (concrete or interface) to implement the interface")
+	// interfaces K and E implement I, and I, K, C, *C implement E (same method set as I); nothing implements J or K
+	implI := whats[1] == 6 || whats[1] == 7 || whats[1] == 9
+	vA("C11", (whats[0] == 2 && (implI || whats[1] == 12)) || (whats[0] == 12 && (implI || whats[1] == 2)), "Bind requires the bound type (concrete or interface) to implement the interface")
 	if whats[1] == 9 {
 		vCover("bind-interface-to-interface")
 	}
